@@ -1427,6 +1427,152 @@ fn c11_halted_absorbing() {
     std::mem::forget(r1); std::mem::forget(r2); std::mem::forget(events); std::mem::forget(st);
 }
 
+// ------------------------------------------------------------------------------------------------
+// C04 / C06 / C10 / C15 / C18: connection closed and session handling (retaining branches only)
+// ------------------------------------------------------------------------------------------------
+
+#[derive(Copy, Clone, PartialEq, Eq)]
+enum CloseShape { PendingAck, CurrentDup, CurrentPubrel, HighPubrel }
+
+fn close_body(shape: CloseShape, limit: Option<u32>, count0: u32) {
+    let mut cfg = mk_config();
+    cfg.offline_queue_policy = any_policy();
+    cfg.max_interrupted_retries = limit;
+    let mut st = ProtocolState::new(cfg);
+    st.state = match kani::any::<u8>() % 3 { 0 => ProtocolStateType::Connected, 1 => ProtocolStateType::PendingDisconnect, _ => ProtocolStateType::Halted };
+    let pid: u16 = kani::any();
+    kani::assume(pid != 0);
+    let qos2 = shape == CloseShape::CurrentPubrel || shape == CloseShape::HighPubrel || kani::any();
+    let qos = if qos2 { QualityOfService::ExactlyOnce } else { QualityOfService::AtLeastOnce };
+    let dup0 = shape == CloseShape::CurrentDup || kani::any();
+    let mut op = mk_publish_op(7, Some(pid), qos, dup0);
+    op.interruption_count = count0;
+    let has_pubrel = shape == CloseShape::CurrentPubrel || shape == CloseShape::HighPubrel;
+    if has_pubrel { op.qos2_pubrel = Some(Box::new(MqttPacket::Pubrel(PubrelPacket { packet_id: pid, ..Default::default() }))); }
+    st.operations.insert(7, op);
+    st.allocated_packet_ids.insert(pid, 7);
+    let in_pending = shape != CloseShape::CurrentDup;
+    if in_pending { st.pending_publish_operations.insert(pid, 7); }
+    match shape {
+        CloseShape::CurrentDup | CloseShape::CurrentPubrel => { st.current_operation = Some(7); }
+        CloseShape::HighPubrel => { st.high_priority_operation_queue.push_back(7); }
+        CloseShape::PendingAck => {}
+    }
+    st.next_ping_timepoint = opt_time();
+    st.ping_timeout_timepoint = opt_time();
+    st.connack_timeout_timepoint = opt_time();
+    st.operation_ack_timeouts.push(Reverse(OperationTimeoutRecord { id: 7, timeout: at(5) }));
+    let mut events: VecDeque<PacketEvent> = VecDeque::new();
+    let r = {
+        let mut ctx = NetworkEventContext { event: NetworkEvent::ConnectionClosed, current_time: zero_instant(), packet_events: &mut events };
+        st.handle_network_event_connection_closed(&mut ctx)
+    };
+    assert!(r.is_ok());
+    assert!(st.state == ProtocolStateType::Disconnected);
+    // the in-flight publish is retained whatever the offline policy (the mandated exception), exactly once, for retransmission
+    assert!(st.resubmit_operation_queue.len() == 1 && *st.resubmit_operation_queue.front().unwrap() == 7);
+    assert!(st.user_operation_queue.is_empty() && st.high_priority_operation_queue.is_empty());
+    assert!(st.current_operation.is_none() && st.pending_publish_operations.is_empty() && st.pending_non_publish_operations.is_empty());
+    assert!(st.operations.len() == 1);
+    let o = st.operations.get(&7).unwrap();
+    let p = match &*o.packet { MqttPacket::Publish(p) => p, _ => { assert!(false); unreachable!() } };
+    // DUP=1 on the retransmission, same identifier, reservation kept, PUBREL slot kept
+    assert!(p.duplicate);
+    assert!(p.packet_id == pid && o.packet_id == Some(pid));
+    assert!(st.allocated_packet_ids.len() == 1 && st.allocated_packet_ids.get(&pid) == Some(&7));
+    assert!(o.qos2_pubrel.is_some() == has_pubrel);
+    if let Some(pr) = &o.qos2_pubrel { match &**pr { MqttPacket::Pubrel(x) => assert!(x.packet_id == pid), _ => assert!(false) } }
+    assert!(qos_num(p.qos) == if qos2 { 2 } else { 1 });
+    // interruption counting: only written-but-unacknowledged operations, only when a limit is configured
+    let counted = limit.is_some() && in_pending;
+    assert!(o.interruption_count == count0 + if counted { 1 } else { 0 });
+    // not completed; all connection-scoped timers cleared
+    assert!(unsafe { CALLS } == 0);
+    assert!(st.next_ping_timepoint.is_none() && st.ping_timeout_timepoint.is_none() && st.connack_timeout_timepoint.is_none() && st.operation_ack_timeouts.is_empty());
+    std::mem::forget(r); std::mem::forget(events); std::mem::forget(st);
+}
+
+fn session_present_body() {
+    // CONNACK with session present: the retransmission queue is kept as it is; operations in the user queue start over
+    let mut st = mk_state(ProtocolStateType::Connected);
+    let (p1, p2): (u16, u16) = (kani::any(), kani::any());
+    kani::assume(p1 != 0 && p2 != 0 && p1 != p2);
+    let qos2: bool = kani::any();
+    let mut a = mk_publish_op(3, Some(p1), if qos2 { QualityOfService::ExactlyOnce } else { QualityOfService::AtLeastOnce }, true);
+    let has_pubrel = qos2 && kani::any::<bool>();
+    if has_pubrel { a.qos2_pubrel = Some(Box::new(MqttPacket::Pubrel(PubrelPacket { packet_id: p1, ..Default::default() }))); }
+    let b = mk_subscribe_op(5, Some(p2)); // a subscribe that had been written, then re-queued at close: starts over
+    st.operations.insert(3, a);
+    st.operations.insert(5, b);
+    st.allocated_packet_ids.insert(p1, 3);
+    st.allocated_packet_ids.insert(p2, 5);
+    st.resubmit_operation_queue.push_back(3);
+    st.user_operation_queue.push_back(5);
+    st.qos2_incomplete_incoming_publishes.insert(9);
+    let r = st.apply_session_present_to_connection(true);
+    assert!(r.is_ok());
+    assert!(st.resubmit_operation_queue.len() == 1 && *st.resubmit_operation_queue.front().unwrap() == 3);
+    assert!(st.user_operation_queue.len() == 1 && *st.user_operation_queue.front().unwrap() == 5);
+    let o = st.operations.get(&3).unwrap();
+    let p = match &*o.packet { MqttPacket::Publish(p) => p, _ => { assert!(false); unreachable!() } };
+    assert!(p.duplicate && p.packet_id == p1 && o.packet_id == Some(p1) && o.qos2_pubrel.is_some() == has_pubrel);
+    assert!(st.allocated_packet_ids.get(&p1) == Some(&3));
+    // the re-queued subscribe gives its identifier back
+    let o5 = st.operations.get(&5).unwrap();
+    assert!(o5.packet_id.is_none() && !st.allocated_packet_ids.contains_key(&p2));
+    match &*o5.packet { MqttPacket::Subscribe(x) => assert!(x.packet_id == 0), _ => assert!(false) }
+    assert!(st.allocated_packet_ids.len() == 1);
+    assert!(st.qos2_incomplete_incoming_publishes.contains(&9));
+    assert!(unsafe { CALLS } == 0);
+    std::mem::forget(r); std::mem::forget(st);
+}
+
+fn session_absent_body(policy: OfflineQueuePolicy) {
+    // CONNACK without session, policy retains the interrupted publish: it restarts as a fresh publish
+    let mut cfg = mk_config();
+    cfg.offline_queue_policy = policy;
+    let mut st = ProtocolState::new(cfg);
+    st.state = ProtocolStateType::Connected;
+    let p1: u16 = kani::any();
+    kani::assume(p1 != 0);
+    let qos2: bool = kani::any();
+    let mut a = mk_publish_op(3, Some(p1), if qos2 { QualityOfService::ExactlyOnce } else { QualityOfService::AtLeastOnce }, true);
+    let has_pubrel = qos2 && kani::any::<bool>();
+    if has_pubrel { a.qos2_pubrel = Some(Box::new(MqttPacket::Pubrel(PubrelPacket { packet_id: p1, ..Default::default() }))); }
+    st.operations.insert(3, a);
+    st.allocated_packet_ids.insert(p1, 3);
+    st.resubmit_operation_queue.push_back(3);
+    st.qos2_incomplete_incoming_publishes.insert(9);
+    let r = st.apply_session_present_to_connection(false);
+    assert!(r.is_ok());
+    assert!(st.resubmit_operation_queue.is_empty());
+    assert!(st.user_operation_queue.len() == 1 && *st.user_operation_queue.front().unwrap() == 3);
+    let o = st.operations.get(&3).unwrap();
+    let p = match &*o.packet { MqttPacket::Publish(p) => p, _ => { assert!(false); unreachable!() } };
+    // fresh publish: DUP=0, no identifier, PUBREL forgotten, nothing reserved, inbound QoS2 state forgotten
+    assert!(!p.duplicate && p.packet_id == 0 && o.packet_id.is_none() && o.qos2_pubrel.is_none());
+    assert!(st.allocated_packet_ids.is_empty() && st.qos2_incomplete_incoming_publishes.is_empty());
+    assert!(unsafe { CALLS } == 0);
+    std::mem::forget(r); std::mem::forget(st);
+}
+
+fn pubrec_body() {
+    let mut st = mk_state(if kani::any() { ProtocolStateType::Connected } else { ProtocolStateType::PendingDisconnect });
+    let pid: u16 = kani::any();
+    kani::assume(pid != 0);
+    st.operations.insert(7, mk_publish_op(7, Some(pid), QualityOfService::ExactlyOnce, kani::any()));
+    st.allocated_packet_ids.insert(pid, 7);
+    st.pending_publish_operations.insert(pid, 7);
+    st.high_priority_operation_queue.push_back(900);
+    let r = st.handle_pubrec(Box::new(MqttPacket::Pubrec(PubrecPacket { packet_id: pid, reason_code: PubrecReasonCode::Success, ..Default::default() })));
+    assert!(r.is_ok());
+    // PUBREL slot set with the same id, operation queued once behind earlier acks, still pending
+    let o = st.operations.get(&7).unwrap();
+    match &o.qos2_pubrel { Some(pr) => match &**pr { MqttPacket::Pubrel(x) => assert!(x.packet_id == pid), _ => assert!(false) }, None => assert!(false) }
+    assert!(st.high_priority_operation_queue.len() == 2 && *st.high_priority_operation_queue.back().unwrap() == 7);
+    assert!(st.pending_publish_operations.get(&pid) == Some(&7) && st.allocated_packet_ids.get(&pid) == Some(&7));
+    assert!(unsafe { CALLS } == 0);
+    std::mem::forget(r); std::mem::forget(st);
+}
+
 include!("protocol_gen.rs");
-
-
